@@ -45,6 +45,7 @@ RC_Unsubscr   == Faithful      \* unsubscriptable subclasses of builtin views (o
 RC_MetaDunder == Faithful      \* dunder methods are looked up on the class object incl. metaclass attributes
 RC_Marker     == Faithful      \* the recursion placeholder is an ordinary class that rejects every object
 RC_Duck       == Faithful      \* the automaton's ABC is trusted although the object is not an instance of it
+RC_CounterVal == Faithful      \* a Counter is always inferred as Counter[key] (= values int), whatever its values
 
 (* ---------------------------------------------------------- extended classes *)
 XSeqCls  == {"range", "UMSeq", "MyList", "DSeq"}
@@ -271,8 +272,13 @@ Mk1(f, h) == IF h.k \in {"exc", "diverge"} THEN h
              ELSE IF Unsubscriptable(f) THEN HExc("TypeError")       \* type 'odict_keys' is not subscriptable
              ELSE IF f \in {"tuple", "list", "MyList", "Sequence", "MutableSequence"} THEN HSeq(f, h)
              ELSE HReit(f, h)
+IntOnly(h) == h \in {HCls("int"), HCls("bool")}
+              \/ (h.k = "union" /\ \A i \in DOMAIN h.a : h.a[i] \in {HCls("int"), HCls("bool")})
 Mk2(f, hk, hv) == IF hk.k \in {"exc", "diverge"} THEN hk ELSE IF hv.k \in {"exc", "diverge"} THEN hv
-                  ELSE IF f = "Counter" THEN HCounter(hk) ELSE HMap(f, hk, hv)
+                  ELSE IF f = "Counter"
+                       THEN (IF RC_CounterVal \/ IntOnly(hv) THEN HCounter(hk)
+                             ELSE HAnn(HMap("dict", hk, hv), <<VInst("Counter")>>))
+                       ELSE HMap(f, hk, hv)
 \* make_hint_pep484604_union(tuple(set(hints))): one member is that member; an exception anywhere is the outcome
 UnionOf(S) == IF \E e \in S : e.k \in {"exc", "diverge"} THEN CHOOSE e \in S : e.k \in {"exc", "diverge"}
               ELSE IF Cardinality(S) = 1 THEN CHOOSE e \in S : TRUE
